@@ -20,4 +20,9 @@ theorem hasher_keys : Gen.BLOOM_HASHER_KEY1_OFFSET = 1 ∧ Gen.BLOOM_HASHER_KEY2
 theorem filter_add_table : Gen.FILTER_ADD_NO_NO = "NotContains" ∧ Gen.FILTER_ADD_OTHER = "NeedAdditionalCheck" :=
   ⟨rfl, rfl⟩
 
+/-- `Inner::merge_filters`: a node whose child has no filter (or whose own filter is `None`, or whose merge is refused)
+    becomes `None` - the model's `Container.mergeFilters` (`none` on either side gives `none`, which covers every key:
+    `C10b.merge_filters_rule`).  The seeded change C10-9 turned the fallback into "keep the node's filter". -/
+theorem merge_filters_falls_back_to_none : Gen.MERGE_FILTERS_NO_FILTER_MERGES = false := by decide
+
 end Pearl.Tie.C10
